@@ -140,6 +140,12 @@ func (n *Net) DialOwner(ctx context.Context, network, address, owner string) (ne
 		}
 		zsimrt.Post(tok, "net-dial")
 	}
+	// the listener may have gone away (or been replaced) while the SYN was under way
+	n.mu.Lock()
+	if n.listeners[address] != h {
+		h = nil
+	}
+	n.mu.Unlock()
 	if h == nil || fault == "refuse" {
 		n.S.Count("fault:dial-refused")
 		return nil, opErr("dial", Addr{address}, os.NewSyscallError("connect", syscall.ECONNREFUSED))
